@@ -122,13 +122,20 @@ package stor
 
 //@ func (s *Stor) offsetToChunk(offset) (r)
 //@   mode bv
-//@   requires s != nil && 0 < s.shift && s.shift < 40 && offset < 4611686018427387904
+//@   requires s != nil && 0 < s.shift && s.shift < 40
 //@   ensures! r == int(offset >> uint64(s.shift))
 
+// storShape: the addressing parameters and the chunk table; nothing about the size of the chunks
+// (a store opened read-only ends with a partial chunk); cks(s) is the chunk table
+//@ spec cks(s *Stor) [][]byte = unbox(s.chunks.v, "[][]byte")
+//@ spec storShape(s *Stor) bool = 0 < s.shift && s.shift < 40 && s.chunksize == pow2(s.shift) && typeis(s.chunks.v, "[][]byte") && len(cks(s)) < 1000000
+// Data: the rest of the chunk that holds offset, starting at offset - and not beyond the chunk's length or capacity
 //@ func (s *Stor) Data(offset) (r)
 //@   mode bv
-//@   requires s != nil && storInv(s) && offset < (uint64(s.allocChunk.v) + 1) << uint64(s.shift)
-//@   ensures! inside: len(r) == s.chunksize - (offset & (s.chunksize - 1)) && ref(r) == ref(unbox(s.chunks.v, "[][]byte")[offset >> uint64(s.shift)]) && off(r) == off(unbox(s.chunks.v, "[][]byte")[offset >> uint64(s.shift)]) + (offset & (s.chunksize - 1))
+//@   requires s != nil && storShape(s)
+//@   requires chunk_exists: int(offset >> uint64(s.shift)) < len(cks(s))
+//@   requires inside_chunk: (offset & (s.chunksize - 1)) <= uint64(len(cks(s)[offset >> uint64(s.shift)]))
+//@   ensures! inside: len(r) == len(cks(s)[offset >> uint64(s.shift)]) - int(offset & (s.chunksize - 1)) && cap(r) == cap(cks(s)[offset >> uint64(s.shift)]) - int(offset & (s.chunksize - 1)) && ref(r) == ref(cks(s)[offset >> uint64(s.shift)]) && off(r) == off(cks(s)[offset >> uint64(s.shift)]) + int(offset & (s.chunksize - 1))
 
 // the storage implementation hands out chunks of the configured size (assumed)
 //@ ghost var gChunkSize int
@@ -136,43 +143,78 @@ package stor
 //@   assumed
 //@   ensures len(r) == gChunkSize && fresh(r)
 
-// storInv without the upper bound on the cursor (a failed attempt has pushed it past the chunk end)
+// storInvW: storInv without the upper bound on the cursor (a failed attempt has pushed it past the chunk end)
 //@ spec storInvW(s *Stor) bool = 0 < s.shift && s.shift < 40 && s.chunksize == pow2(s.shift) && s.chunksize == gChunkSize && typeis(s.chunks.v, "[][]byte") && 0 <= s.allocChunk.v && s.allocChunk.v < 1000000 && len(unbox(s.chunks.v, "[][]byte")) == s.allocChunk.v + 1 && (forall k :: 0 <= k && k < len(unbox(s.chunks.v, "[][]byte")) ==> len(unbox(s.chunks.v, "[][]byte")[k]) == s.chunksize)
+// storInvC: what holds at EVERY instant of a concurrent execution: between the two atomic steps of extend
+// that add a chunk to the table and publish it, the table is one longer than allocChunk says; the cursor is
+// never behind the start of the published chunk. (Assumed besides, in requires/rely: the counter is far from
+// wrapping around, size < 2^63 + 2^62 - closedSize 'needs to allow room to be incremented'.)
+//@ spec storInvC(s *Stor) bool = 0 < s.shift && s.shift < 40 && s.chunksize == pow2(s.shift) && s.chunksize == gChunkSize && typeis(s.chunks.v, "[][]byte") && 0 <= s.allocChunk.v && s.allocChunk.v < 1000000 && len(cks(s)) > s.allocChunk.v && len(cks(s)) <= s.allocChunk.v + 2 && (forall k :: 0 <= k && k < len(cks(s)) ==> len(cks(s)[k]) == s.chunksize) && s.size.v >= uint64(s.allocChunk.v) << uint64(s.shift)
 
-// Interference contract (rely/guarantee style): across EVERY atomic write that
-// extend and Alloc perform on the shared cursor state, (1) allocChunk moves by
-// at most one, (2) a chunk is published (allocChunk advanced) only after it is
-// in the chunk table and without touching size, (3) size is only ever rewound
-// to a position beyond every published chunk - so no window handed out to a
-// concurrent allocator (all of which lie in published chunks) can be handed out
-// again - and (4) the chunk table only grows. The obligations are discharged per
-// atomic step; the argument from these guarantees to "no two concurrent
-// allocations overlap" is by hand (DESIGN.md).
+// ---- concurrency: rely/guarantee ------------------------------------------------------------------------
+// Alloc and extend are verified as ONE thread among arbitrarily many: before every call they make (in
+// particular before every atomic operation) the shared cursor state - size, allocChunk, the chunk table -
+// is given arbitrary new values, constrained only by the `rely` clauses. What a thread may rely on is what
+// every other thread guarantees: the `guarantee` clauses are proof obligations across EVERY atomic write
+// that Alloc and extend (the only writers) perform, and each rely clause is the reflexive-transitive closure
+// of guarantee clauses (this last step is by hand, DESIGN.md):
+//   inv            storInvC holds at every instant                       <- guarantee inv_kept
+//   immutable      shift/chunksize/impl are never written                <- no such write in the package
+//   chunk_monotone allocChunk never decreases                            <- guarantee chunk_monotone
+//   table_grows    the chunk table only grows, published entries stay     <- guarantee table_grows
+// extend runs under s.lock: only the lock holder writes allocChunk and the chunk table, so extend relies on
+// those two not changing at all while it holds the lock (monitor invariant `lockinv`: table and allocChunk
+// agree whenever the lock is free), and only on `size` being changed by concurrent allocations.
+//
+// gSizeAtAdd/gChunkAtAdd are snapshots taken at the instant of the atomic Add that reserved the returned
+// window (at_atomic): the window is exactly the n bytes below the counter value produced by that Add, and its
+// chunk was already published at that instant. With guarantee rewind_unpublished (size is only ever set back
+// to the start of a chunk that is not yet published) no window that was or will be returned can be handed
+// out again: distinct Adds produce disjoint windows unless size was rewound in between, and a rewind goes
+// beyond every chunk published before it.
+//@ ghost var gSizeAtAdd int
+//@ ghost var gChunkAtAdd int
 //@ func (s *Stor) extend(allocChunk)
 //@   mode int
-//@   requires s != nil && s.impl != nil && storInvW(s) && allocChunk == s.allocChunk.v && allocChunk < 999999
+//@   requires s != nil && s.impl != nil && storInvC(s) && s.size.v < 13835058055282163712 && 0 <= allocChunk && allocChunk <= s.allocChunk.v && allocChunk < 999999
 //@   modifies all
-//@   ensures! extended: storInvW(s) && s.allocChunk.v == allocChunk + 1 && s.size.v == uint64(allocChunk + 1) << uint64(s.shift) && s.shift == old(s.shift) && s.chunksize == old(s.chunksize)
-//@   ensures! old_chunks_kept: forall k :: 0 <= k && k <= allocChunk ==> unbox(s.chunks.v, "[][]byte")[k] == old(unbox(s.chunks.v, "[][]byte")[k])
+//@   shared s.size
+//@   rely size_only_added_to: s.size.v >= old(s.size.v) && s.size.v < 13835058055282163712
+//@   lockinv table_matches: len(cks(s)) == s.allocChunk.v + 1
+//@   ensures! extended: storInvC(s) && s.allocChunk.v >= allocChunk + 1 && s.shift == old(s.shift) && s.chunksize == old(s.chunksize) && s.impl == old(s.impl)
+//@   ensures! old_chunks_kept: len(cks(s)) >= len(old(cks(s))) && forall k :: 0 <= k && k < len(old(cks(s))) ==> cks(s)[k] == old(cks(s)[k])
+//@   guarantee inv_kept: storInvC(s)
 //@   guarantee chunk_monotone: s.allocChunk.v == old(s.allocChunk.v) || s.allocChunk.v == old(s.allocChunk.v) + 1
-//@   guarantee publish_after_map: s.allocChunk.v != old(s.allocChunk.v) ==> s.size.v == old(s.size.v) && len(unbox(s.chunks.v, "[][]byte")) > s.allocChunk.v
+//@   guarantee publish_after_map: s.allocChunk.v != old(s.allocChunk.v) ==> s.size.v == old(s.size.v) && len(cks(s)) > s.allocChunk.v
 //@   guarantee rewind_unpublished: s.size.v < old(s.size.v) ==> s.size.v >= (uint64(s.allocChunk.v) + 1) << uint64(s.shift)
-//@   guarantee table_grows: typeis(s.chunks.v, "[][]byte") && len(unbox(s.chunks.v, "[][]byte")) >= len(old(unbox(s.chunks.v, "[][]byte"))) && forall k :: 0 <= k && k < len(old(unbox(s.chunks.v, "[][]byte"))) ==> unbox(s.chunks.v, "[][]byte")[k] == old(unbox(s.chunks.v, "[][]byte")[k])
+//@   guarantee table_grows: typeis(s.chunks.v, "[][]byte") && len(cks(s)) >= len(old(cks(s))) && forall k :: 0 <= k && k < len(old(cks(s))) ==> cks(s)[k] == old(cks(s)[k])
 
-// Alloc: the returned window [offset, offset+n) lies inside one existing chunk,
-// starts at or after the previous cursor, and the slice has exactly n bytes of capacity
+// Alloc: the returned window [offset, offset+n) is exactly the n bytes below the value the atomic counter
+// got from this call's own Add, it lies inside one chunk that was published when it was reserved, and the
+// slice has exactly n bytes of length and capacity at that position of that chunk. Under interference the
+// retry loop can be exhausted: Alloc then fails loudly ("too many retries"), which the property allows.
 //@ func (s *Stor) Alloc(n) (offset, buf)
 //@   mode bv
-//@   requires s != nil && s.impl != nil && storInv(s) && s.allocChunk.v < 999999 && s.chunksize == gChunkSize && 0 < n && n <= s.chunksize
-//@   modifies all
-//@   ensures! inv: storInv(s) && s.shift == old(s.shift) && s.chunksize == old(s.chunksize)
-//@   ensures! window: offset + uint64(n) == s.size.v && offset >= old(s.size.v)
-//@   ensures! no_straddle: (offset >> uint64(s.shift)) == ((offset + uint64(n) - 1) >> uint64(s.shift)) && int64(offset >> uint64(s.shift)) == s.allocChunk.v
-//@   ensures! exact_slice: len(buf) == n && cap(buf) == n && ref(buf) == ref(unbox(s.chunks.v, "[][]byte")[offset >> uint64(s.shift)]) && off(buf) == off(unbox(s.chunks.v, "[][]byte")[offset >> uint64(s.shift)]) + (offset & (s.chunksize - 1))
+//@   requires s != nil && s.impl != nil && storInvC(s) && s.size.v < 13835058055282163712 && s.allocChunk.v < 999990 && 0 < n && n <= s.chunksize
+//@   modifies all, gSizeAtAdd, gChunkAtAdd
+//@   maypanic
+//@   shared s.size, s.allocChunk, s.chunks
+//@   rely inv: storInvC(s) && s.allocChunk.v < 999990 && s.size.v < 13835058055282163712
+//@   rely immutable: s.shift == old(s.shift) && s.chunksize == old(s.chunksize) && s.impl == old(s.impl)
+//@   rely chunk_monotone: s.allocChunk.v >= old(s.allocChunk.v)
+//@   rely table_grows: len(cks(s)) >= len(old(cks(s))) && forall k :: 0 <= k && k < len(old(cks(s))) ==> cks(s)[k] == old(cks(s)[k])
+//@   at_atomic gSizeAtAdd = s.size.v
+//@   at_atomic gChunkAtAdd = s.allocChunk.v
+//@   ensures! window: offset + uint64(n) == gSizeAtAdd
+//@   ensures! no_straddle: (offset >> uint64(s.shift)) == ((offset + uint64(n) - 1) >> uint64(s.shift))
+//@   ensures! published_when_reserved: int64(offset >> uint64(s.shift)) <= gChunkAtAdd
+//@   ensures! exact_slice: len(buf) == n && cap(buf) == n && ref(buf) == ref(cks(s)[offset >> uint64(s.shift)]) && off(buf) == off(cks(s)[offset >> uint64(s.shift)]) + int(offset & (s.chunksize - 1))
+//@   ensures! immutable: s.shift == old(s.shift) && s.chunksize == old(s.chunksize)
+//@   guarantee inv_kept: storInvC(s)
 //@   guarantee chunk_monotone: s.allocChunk.v == old(s.allocChunk.v) || s.allocChunk.v == old(s.allocChunk.v) + 1
-//@   guarantee publish_after_map: s.allocChunk.v != old(s.allocChunk.v) ==> s.size.v == old(s.size.v) && len(unbox(s.chunks.v, "[][]byte")) > s.allocChunk.v
+//@   guarantee publish_after_map: s.allocChunk.v != old(s.allocChunk.v) ==> s.size.v == old(s.size.v) && len(cks(s)) > s.allocChunk.v
 //@   guarantee rewind_unpublished: s.size.v < old(s.size.v) ==> s.size.v >= (uint64(s.allocChunk.v) + 1) << uint64(s.shift)
-//@   guarantee table_grows: typeis(s.chunks.v, "[][]byte") && len(unbox(s.chunks.v, "[][]byte")) >= len(old(unbox(s.chunks.v, "[][]byte"))) && forall k :: 0 <= k && k < len(old(unbox(s.chunks.v, "[][]byte"))) ==> unbox(s.chunks.v, "[][]byte")[k] == old(unbox(s.chunks.v, "[][]byte")[k])
+//@   guarantee table_grows: typeis(s.chunks.v, "[][]byte") && len(cks(s)) >= len(old(cks(s))) && forall k :: 0 <= k && k < len(old(cks(s))) ==> cks(s)[k] == old(cks(s)[k])
 //@   loop 0 unroll 3
 
 //@ property C19
